@@ -1208,8 +1208,19 @@ example :
 
 /-! ## tie to the source -/
 
-def expect_sleep_Done : List String := ["assign[w]", "for", "cond[(!=) w nil]", "assign[next]", "for", "call[atomic LoadPointer(& w s)]", "assign[t]", "if[(!=) t usleeper s]", "call[usleeper(s)]", "then", "assign[w allWakersNext]", "assign[pending]", "break", "fi", "if[atomic CompareAndSwapPointer & w s t nil]", "call[atomic CompareAndSwapPointer(& w s,t,nil)]", "then", "break", "fi", "rof", "assign[w]", "rof", "for", "cond[(!=) pending nil]", "call[s nextWaker(true)]", "assign[pulled]", "assign[prev]", "for", "assign[w]", "cond[(!=) w nil]", "if[(==) pulled w]", "then", "assign[prev]", "break", "fi", "assign[prev]", "assign[w]", "rof", "rof", "assign[s allWakers]"]
-def expect_sleep_AddWaker : List String := ["assign[w allWakersNext]", "assign[s allWakers]", "assign[w id]", "for", "call[atomic LoadPointer(& w s)]", "call[Sleeper(atomic LoadPointer & w s)]", "assign[p]", "if[(==) p & assertedSleeper]", "then", "call[s enqueueAssertedWaker(w)]", "ret[]", "fi", "if[atomic CompareAndSwapPointer & w s usleeper p usleeper s]", "call[usleeper(p)]", "call[usleeper(s)]", "call[atomic CompareAndSwapPointer(& w s,usleeper p,usleeper s)]", "then", "ret[]", "fi", "rof"]
+def expect_sleep_Done : List String :=
+  ["assign[v2]", "for", "cond[(!=) v2 nil]", "assign[v3]", "for", "call[atomic LoadPointer(& v2 s)]", "assign[v4]",
+   "if[(!=) v4 usleeper v0]", "call[usleeper(v0)]", "then", "assign[v2 allWakersNext]", "assign[v1]", "break",
+   "fi", "if[atomic CompareAndSwapPointer & v2 s v4 nil]", "call[atomic CompareAndSwapPointer(& v2 s,v4,nil)]",
+   "then", "break", "fi", "rof", "assign[v2]", "rof", "for", "cond[(!=) v1 nil]", "call[v0 nextWaker(true)]",
+   "assign[v5]", "assign[v6]", "for", "assign[v2]", "cond[(!=) v2 nil]", "if[(==) v5 v2]", "then", "assign[v6]",
+   "break", "fi", "assign[v6]", "assign[v2]", "rof", "rof", "assign[v0 allWakers]"]
+def expect_sleep_AddWaker : List String :=
+  ["assign[v1 allWakersNext]", "assign[v0 allWakers]", "assign[v1 id]", "for", "call[atomic LoadPointer(& v1 s)]",
+   "call[Sleeper(atomic LoadPointer & v1 s)]", "assign[v3]", "if[(==) v3 & assertedSleeper]", "then",
+   "call[v0 enqueueAssertedWaker(v1)]", "ret[]", "fi",
+   "if[atomic CompareAndSwapPointer & v1 s usleeper v3 usleeper v0]", "call[usleeper(v3)]", "call[usleeper(v0)]",
+   "call[atomic CompareAndSwapPointer(& v1 s,usleeper v3,usleeper v0)]", "then", "ret[]", "fi", "rof"]
 
 /-- the control / atomic-operation skeleton of `Sleeper.Done` and `Sleeper.AddWaker` in the current source is the one
 the `Done` layer of the model mirrors (regenerated on every run; the schedule-point hooks are not part of it) -/
